@@ -117,8 +117,11 @@ def case(d):
     if d.bool(0.12):
         # a file that opens with several comments, one of them too long: the header relation must still be a pure shift
         p = family.member_of(d, violating=1.0, ftype="c", opts={"force": ("leading-comments",)}, only=("X01c",))
+    elif d.bool(0.1):
+        # a preprocessor line directly above a definition (no empty line in between): look-back loops of the rules meet mixed histories
+        p = family.member_of(d, violating=1.0, ftype="c", opts={"force": ("define",)}, only=("E07",))
     else:
-        p = family.member_of(d, prefer=("X01c", "X01", "K03", "E03", "T03b", "T01", "T03", "F06"), opts={"decorate": True})
+        p = family.member_of(d, prefer=("X01c", "X01", "K03", "E03", "E07", "T03b", "T01", "T03", "F06"), opts={"decorate": True})
     return p, d
 
 
